@@ -442,6 +442,15 @@ def parse_mir(path, src_tag=''):
                 for k, t in params: cur.locals[k] = t
                 raw = []
             else:
+                m1 = re.match(r'^(const|static) (.+?): (.+?) = const (.+);$', line)
+                if m1:
+                    g = Fn(); g.name = m1.group(2); g.kind = m1.group(1); g.params = []; g.ret = m1.group(3)
+                    g.locals = {0: m1.group(3)}; g.sig = line; g.error = None; g.src = src_tag; g.nlocals = 1
+                    b = Block(); b.cleanup = False; b.term = ('return',)
+                    b.stmts = [('assign', parse_place('_0'), ('use', ('const', parse_const(m1.group(4)))))]
+                    g.blocks = {0: b}; g.key = g.name; g.dup = 1
+                    fns.setdefault(g.name, g)
+                    continue
                 m = HDR_CONST.match(line)
                 if m:
                     cur = Fn(); cur.name = m.group(2); cur.kind = m.group(1); cur.params = []; cur.ret = m.group(3)
